@@ -15,6 +15,7 @@ package c03
 import (
 	"context"
 	"fmt"
+	"net/url"
 	"os"
 	"regexp"
 	"sort"
@@ -24,16 +25,22 @@ import (
 	apkver "github.com/knqyf263/go-apk-version"
 	debver "github.com/knqyf263/go-deb-version"
 	rpmver "github.com/knqyf263/go-rpm-version"
+	"github.com/quay/zlog"
+	"github.com/rs/zerolog"
 
 	"github.com/quay/claircore"
 	"github.com/quay/claircore/alpine"
 	"github.com/quay/claircore/aws"
 	"github.com/quay/claircore/debian"
+	"github.com/quay/claircore/java"
 	"github.com/quay/claircore/libvuln/driver"
 	"github.com/quay/claircore/oracle"
 	"github.com/quay/claircore/photon"
+	"github.com/quay/claircore/pkg/pep440"
+	"github.com/quay/claircore/python"
 	"github.com/quay/claircore/rhel"
 	"github.com/quay/claircore/rhel/rhcc"
+	"github.com/quay/claircore/ruby"
 	"github.com/quay/claircore/suse"
 	"github.com/quay/claircore/toolkit/types/cpe"
 	"github.com/quay/claircore/ubuntu"
@@ -507,6 +514,8 @@ func Run(cfg hx.Config) error {
 	if in := os.Getenv("C03_PROBE"); in != "" {
 		return probeChild(in)
 	}
+	nop := zerolog.Nop()
+	zlog.Set(&nop) // the matchers log every comparison at debug level
 	r, err := hx.NewRun(cfg)
 	if err != nil {
 		return err
@@ -526,6 +535,11 @@ func Run(cfg hx.Config) error {
 	e.debMatcherOps(cfg.N(40, 2000))
 	e.apkCompareOps(cfg.N(5000, 150000))
 	e.apkMatcherOps(cfg.N(40, 2000))
+	e.rangeOps(cfg.N(1500, 50000))
+	e.ctlOps(cfg.N(25, 1000))
+	e.urlQueryOps(cfg.N(600, 20000))
+	e.osvMatcherOps(cfg.N(30, 1500))
+	e.osvFreeOps(cfg.N(1500, 60000))
 	if err := e.flushPending(); err != nil {
 		return err
 	}
@@ -862,5 +876,241 @@ func (e *env) apkMatcherOps(chains int) {
 				one(pe.spell, bad, -1, -1)
 			}
 		}
+	}
+}
+
+// ---- python, ruby, java: url-encoded introduced / fixed / lastAffected ----
+
+// langScheme is a language ecosystem's real parser and comparator.
+type langScheme struct {
+	name  string
+	m     driver.Matcher
+	parse func(string) (any, error)
+	cmp   func(a, b any) int
+}
+
+func langSchemes() []langScheme {
+	return []langScheme{
+		{"python", &python.Matcher{},
+			func(s string) (any, error) { v, err := pep440.Parse(s); return &v, err },
+			func(a, b any) int { return a.(*pep440.Version).Compare(b.(*pep440.Version)) }},
+		{"ruby", &ruby.Matcher{},
+			func(s string) (any, error) { return ruby.NewVersion(s) },
+			func(a, b any) int { return a.(ruby.Version).Compare(b.(ruby.Version)) }},
+		{"java", &java.Matcher{},
+			func(s string) (any, error) { return java.ParseMavenVersionForVerif(s) },
+			func(a, b any) int { return a.(java.MavenVersionForVerif).Compare(b.(java.MavenVersionForVerif)) }},
+	}
+}
+
+// osvTable records what the scheme's real parser and comparator say about
+// the strings the matcher will look at (the package version and the decoded
+// introduced / fixed / lastAffected values).
+func osvTable(sc langScheme, pv, fixedIn string) string {
+	if fixedIn == "" {
+		return "none"
+	}
+	strs := []string{pv}
+	if q, err := url.ParseQuery(fixedIn); err == nil {
+		for _, k := range []string{"introduced", "fixed", "lastAffected"} {
+			if v := q.Get(k); v != "" {
+				strs = append(strs, v)
+			}
+		}
+	}
+	pkgV, pkgErr := sc.parse(pv)
+	var ents []string
+	seen := map[string]bool{}
+	for _, s := range strs {
+		if seen[s] {
+			continue
+		}
+		seen[s] = true
+		v, err := sc.parse(s)
+		p, c := "1", "x"
+		if err != nil {
+			p = "0"
+		} else if pkgErr == nil {
+			c = map[string]string{"-1": "l", "0": "e", "1": "g"}[sign(sc.cmp(pkgV, v))]
+		}
+		ents = append(ents, hexs(s)+"/"+p+"/"+c)
+	}
+	return strings.Join(ents, ",")
+}
+
+func (e *env) osvCall(sc langScheme, pv, fixedIn string) string {
+	p, a := pkg{version: pv}, advisory{fixed: fixedIn}
+	got := call(sc.m, p, a, nil)
+	e.r.Op("osv "+hexs(pv)+" "+hexs(fixedIn)+" "+osvTable(sc, pv, fixedIn), got, true)
+	return got
+}
+
+// urlQueryOps: url.ParseQuery + Get of the three keys, against the model.
+func (e *env) urlQueryOps(n int) {
+	r, rnd := e.r, e.rnd
+	keys := []string{"introduced", "fixed", "lastAffected", "limit", "Fixed", ""}
+	vals := []string{"1.0", "2.0.1", "1.0 rc1", "1.0+local", "1%2B2", "a&b", "a=b", "a;b", "", "0", "1.0~rc1", "%zz", "100%"}
+	for i := 0; i < n && !r.Stop(); i++ {
+		var q string
+		switch c := rnd.Intn(10); {
+		case c < 4: // what the updater writes
+			v := url.Values{}
+			for k := rnd.Intn(4); k > 0; k-- {
+				v.Add(keys[rnd.Intn(3)], vals[rnd.Intn(len(vals))])
+			}
+			q = v.Encode()
+		case c < 8: // hand-written settings
+			var parts []string
+			for k := rnd.Intn(4); k > 0; k-- {
+				part := keys[rnd.Intn(len(keys))]
+				if rnd.Chance(5, 6) {
+					part += "=" + rnd.Pick("1.0", "2.0.1", "1.0+rc1", "1%2B2", "%41", "%4", "%", "%zz", "a;b", "", "1=2", "%3D")
+				}
+				parts = append(parts, part)
+			}
+			q = strings.Join(parts, rnd.Pick("&", "&", "&", "&&", ";"))
+		default:
+			q = freeStr(rnd, "abfixedintroduced=&%+;12.0AF", 14)
+		}
+		got := timed(5*time.Second, func() string {
+			m, err := url.ParseQuery(q)
+			if err != nil {
+				return "err"
+			}
+			return "ok " + hexs(m.Get("introduced")) + " " + hexs(m.Get("fixed")) + " " + hexs(m.Get("lastAffected"))
+		})
+		r.Op("urlq "+hexs(q), got, true)
+		r.Count("urlq:" + got[:2])
+	}
+}
+
+func (e *env) langChain(eco string, n int) []chainElem {
+	rnd := e.rnd
+	vs := []langVer{genLang(rnd, eco)}
+	for len(vs) < n {
+		vs = append(vs, mutateLang(rnd, eco, vs[rnd.Intn(len(vs))]))
+	}
+	sort.SliceStable(vs, func(i, j int) bool { return cmpLang(vs[i], vs[j]) < 0 })
+	var out []chainElem
+	rank := 0
+	for i, v := range vs {
+		if i > 0 && cmpLang(vs[i-1], v) != 0 {
+			rank++
+		}
+		out = append(out, chainElem{rank, renderLang(rnd, eco, v, false)})
+		if rnd.Chance(1, 4) {
+			out = append(out, chainElem{rank, renderLang(rnd, eco, v, true)})
+		}
+	}
+	return out
+}
+
+// osvMatcherOps: every range shape over chains, with the statement checked on the answers.
+func (e *env) osvMatcherOps(chains int) {
+	r, rnd := e.r, e.rnd
+	for c := 0; c < chains && !r.Stop(); c++ {
+		for _, sc := range langSchemes() {
+			chain := e.langChain(sc.name, 5+rnd.Intn(3))
+			for _, pe := range chain {
+				for k := 0; k < 10 && !r.Stop(); k++ {
+					var ie, ue *chainElem // introduced, upper bound
+					if rnd.Chance(1, 2) {
+						ie = &chain[rnd.Intn(len(chain))]
+					}
+					shape := rnd.Pick("fixed", "fixed", "fixed", "lastAffected", "lastAffected", "open", "nofix")
+					if shape == "fixed" || shape == "lastAffected" {
+						// prefer bounds next to the package
+						ue = &chain[rnd.Intn(len(chain))]
+						if rnd.Chance(1, 2) {
+							for j := range chain {
+								if chain[j].rank == pe.rank || chain[j].rank == pe.rank+1 {
+									ue = &chain[j]
+									if rnd.Chance(1, 2) {
+										break
+									}
+								}
+							}
+						}
+					}
+					v := url.Values{}
+					if ie != nil {
+						v.Add("introduced", ie.spell)
+					}
+					if ue != nil {
+						v.Add(shape, ue.spell)
+					}
+					fixedIn := v.Encode()
+					if shape == "nofix" {
+						fixedIn = ""
+					} else if fixedIn == "" {
+						continue
+					}
+					if rnd.Chance(1, 8) && fixedIn != "" {
+						// the same settings in another order / with an unknown key
+						parts := strings.Split(fixedIn, "&")
+						for i, j := 0, len(parts)-1; i < j; i, j = i+1, j-1 {
+							parts[i], parts[j] = parts[j], parts[i]
+						}
+						fixedIn = strings.Join(append(parts, "limit=9"), "&")
+					}
+					got := e.osvCall(sc, pe.spell, fixedIn)
+					r.Count("osv:" + sc.name + ":" + shape + ":" + got)
+					want := true
+					if fixedIn != "" {
+						if ie != nil && pe.rank < ie.rank {
+							want = false
+						}
+						switch shape {
+						case "fixed":
+							want = want && pe.rank < ue.rank
+						case "lastAffected":
+							want = want && pe.rank <= ue.rank
+						}
+					}
+					if got != fmt.Sprint(want) {
+						r.Fail("", fmt.Sprintf("%s: Vulnerable(package %q, FixedInVersion %q)=%s, by construction expected %v", sc.name, pe.spell, fixedIn, got, want))
+					}
+				}
+			}
+		}
+	}
+}
+
+// osvFreeOps: arbitrary versions and queries (model comparison only).
+func (e *env) osvFreeOps(n int) {
+	r, rnd := e.r, e.rnd
+	scs := langSchemes()
+	for i := 0; i < n && !r.Stop(); i++ {
+		sc := scs[rnd.Intn(len(scs))]
+		mk := func() string {
+			switch rnd.Intn(4) {
+			case 0:
+				return freeStr(rnd, langAlphabet, 8)
+			case 1:
+				return edit(rnd, renderLang(rnd, sc.name, genLang(rnd, sc.name), true), langAlphabet)
+			}
+			return renderLang(rnd, sc.name, genLang(rnd, sc.name), true)
+		}
+		pv := mk()
+		var parts []string
+		for _, k := range []string{"introduced", "fixed", "lastAffected"} {
+			if rnd.Chance(1, 2) {
+				val := mk()
+				if rnd.Chance(3, 4) {
+					val = url.QueryEscape(val)
+				}
+				parts = append(parts, k+"="+val)
+			}
+		}
+		if rnd.Chance(1, 10) {
+			parts = append(parts, rnd.Pick("fixed=%zz", "a;b=1", "fixed", "=1", "fixed=1&fixed=2"))
+		}
+		rnd2 := rnd.Intn(len(parts) + 1)
+		if rnd2 < len(parts) {
+			parts[0], parts[rnd2] = parts[rnd2], parts[0]
+		}
+		fixedIn := strings.Join(parts, "&")
+		got := e.osvCall(sc, pv, fixedIn)
+		r.Count("osv-free:" + sc.name + ":" + got)
 	}
 }
